@@ -68,7 +68,7 @@ def discover():
                 if m:
                     pending = parse_meta(m.group(1))
                     continue
-                m = re.match(r"\s*(?:pub\s+)?fn\s+(\w+)\s*\(", line)
+                m = re.match(r"\s*(?:pub\s+)?fn\s+(\w+)\s*\(", line) or re.match(r"\s*\w+!\(\s*(\w+)\s*,", line)
                 if m and pending is not None:
                     hs.append(Harness(crate, module, m.group(1), pending, src))
                     pending = None
@@ -76,25 +76,44 @@ def discover():
 
 
 # ----------------------------------------------------------------------------- pool of target dirs
+NSLOTS = 6   # target dirs per crate, shared by all driver processes on this machine (flock)
+
+
 class Pool:
+    """Target-dir slots of one harness crate. A slot is held through an flock on <dir>.lock, so that
+    several driver processes (e.g. a background run and an interactive one) never share a target dir."""
+
     def __init__(self, crate, n):
         self.crate, self.n = crate, n
-        self.free = list(range(n))
-        self.cv = threading.Condition()
+        self.held = {}
+        self.mu = threading.Lock()
 
     def dir(self, i):
         return os.path.join(TARGET, f"{self.crate}-{i}")
 
     def acquire(self):
-        with self.cv:
-            while not self.free:
-                self.cv.wait()
-            return self.free.pop(0)
+        import fcntl
+        while True:
+            for i in range(NSLOTS):
+                with self.mu:
+                    if i in self.held:
+                        continue
+                    f = open(self.dir(i) + ".lock", "w")
+                    try:
+                        fcntl.flock(f, fcntl.LOCK_EX | fcntl.LOCK_NB)
+                    except OSError:
+                        f.close()
+                        continue
+                    self.held[i] = f
+                if not os.path.isdir(self.dir(i)):
+                    subprocess.run(["cp", "-a", self.dir(0), self.dir(i)], check=False)
+                return i
+            time.sleep(0.5)
 
     def release(self, i):
-        with self.cv:
-            self.free.append(i)
-            self.cv.notify()
+        with self.mu:
+            f = self.held.pop(i)
+        f.close()
 
 
 class MemGate:
@@ -161,20 +180,18 @@ def prepare_pool(crate, n):
             return None
     pool = Pool(crate, n)
     d0 = pool.dir(0)
-    triv = Harness(crate, "", "zz_nothing", {}, "")
-    triv.full = "zz_nothing"
     cmd = ["cargo", "kani", "--target-dir", d0] + KANI_FLAGS + ["--harness", "zz_nothing"] + CBMC_FLAGS
-    lf = os.path.join(LOGS, f"{crate}-prepare.log")
-    rc, dt = run_limited(cmd, crate_dir(crate), 1200, 16, lf)
+    lf = os.path.join(LOGS, f"{crate}-prepare-{os.getpid()}.log")
+    import fcntl
+    with open(d0 + ".lock", "w") as lk:
+        fcntl.flock(lk, fcntl.LOCK_EX)          # slot 0 is also the template: build it exclusively
+        rc, dt = run_limited(cmd, crate_dir(crate), 1200, 16, lf)
     txt = open(lf, errors="replace").read()
     if "VERIFICATION:- SUCCESSFUL" not in txt:
         log(f"[prepare] crate {crate}: build failed, see {lf}")
         log("\n".join(txt.splitlines()[-40:]))
         return None
-    for i in range(1, n):
-        if not os.path.isdir(pool.dir(i)):
-            subprocess.run(["cp", "-a", d0, pool.dir(i)], check=True)
-    log(f"[prepare] crate {crate}: pool of {n} target dirs ready ({dt:.0f}s)")
+    log(f"[prepare] crate {crate}: target dir template ready ({dt:.0f}s)")
     return pool
 
 
